@@ -19,7 +19,7 @@ from sim.core import Gen, Violation
 PROP = "C10"
 LEVEL = "exploration"
 HASH_VARIANTS = 1
-RUNS = {"quick": 3000, "thorough": 1500000}
+RUNS = {"quick": 3000, "thorough": 600000}
 WALL_LIMIT = {"quick": 1200, "thorough": 5 * 3600}
 ENUM_LEN = {"quick": 3, "thorough": 4}
 PROBES = ["offset_after_reonset", "inset_after_offset", "same_name_different_value", "two_markers_one_name_one_timepoint",
